@@ -5,5 +5,8 @@ def register(CHECKS, NOT_YET, ENGINES, EXTRA_ENGINE, EXTRA_NOTE):
     CHECKS["C14"] = ("§7.14", "PBT: generated documents (shape x multi-line payloads x write chunking) vs independent reference renderer, every start node, four format modes",
                      "Generated documents are printed from every node in all four format modes (debug-assertion and release build) and compared line by line with a reference renderer written from the property text; panics are caught and reported. Sampled, not exhaustive.")
     EXTRA_NOTE["C14"] = "Trusted base: the reference renderer in harness/core/src/pretty.rs, proptest, rustc. Documents bounded to <= 28 nodes and <= 4 lines per payload."
-    for pid in ("C15", "C16", "C17", "C18"):
+    CHECKS["C16"] = ("§7.16", "round-trip PBT through serde_json inside generated histories; lock-step continuation of original and copy",
+                     "With the deser feature enabled, generated histories serialise and deserialise the arena at generated points; equality, re-serialisation, is_removed of every historical id, and identical behaviour of copy and original under the remaining calls are checked. Sampled states, one data format.")
+    EXTRA_NOTE["C16"] = "Trusted base: serde / serde_json (as carrier), the reference model, proptest. Built with indextree feature deser in its own target directory."
+    for pid in ("C15", "C17", "C18"):
         NOT_YET[pid] = "check under construction in this session (see DESIGN.md §7); not claimed until its machinery is committed"
